@@ -26,7 +26,7 @@ var (
 )
 
 func (g *randGen) pick(xs []string) string { return xs[g.rng.Intn(len(xs))] }
-func (g *randGen) num() float64           { return rgNumbers[g.rng.Intn(len(rgNumbers))] }
+func (g *randGen) num() float64            { return rgNumbers[g.rng.Intn(len(rgNumbers))] }
 
 func (g *randGen) scalar() any {
 	switch g.rng.Intn(5) {
